@@ -527,13 +527,14 @@ def concretize(s, cap=64):
 
 
 class Ob:
-    __slots__ = ("name", "kind", "formula", "margin_formula", "got", "want", "scale", "ok", "detail")
+    __slots__ = ("name", "kind", "formula", "margin_formula", "exact_formula", "got", "want", "scale", "ok", "detail")
 
     def __init__(self, name, kind):
         self.name = name
         self.kind = kind
         self.formula = None
         self.margin_formula = None
+        self.exact_formula = None
         self.got = self.want = self.scale = None
         self.ok = None
         self.detail = None
@@ -566,6 +567,8 @@ class Ctx:
         self.queries = 0
         self.solver_s = 0.0
         self.unknown_branches = 0
+        self.fresh_queries = 0
+        self.qtimeout_ms = timeout_ms
         self.max_depth = 4000
         self.model = None
         self.model_valid = False
@@ -713,20 +716,36 @@ class Ctx:
             if r == "unsat":
                 raise Infeasible()
 
-    def _check(self, *extra):
+    def _check(self, *extra, fresh=False):
+        """Incremental query (push/pop) for branch feasibility; fresh=True builds a one-shot solver so that
+        z3 selects its tactic-based (nlsat) strategy, which the incremental core does not use.  An incremental
+        'unknown' is retried one-shot."""
         t = time.time()
-        if extra:
-            self.solver.push()
-            for c in extra:
-                self.solver.add(c)
-        r = self.solver.check()
-        res = str(r)
+        res = None
         m = None
-        if res == "sat":
-            m = self.solver.model()
-        if extra:
-            self.solver.pop()
-        self.queries += 1
+        if not fresh:
+            if extra:
+                self.solver.push()
+                for c in extra:
+                    self.solver.add(c)
+            r = self.solver.check()
+            res = str(r)
+            if res == "sat":
+                m = self.solver.model()
+            if extra:
+                self.solver.pop()
+            self.queries += 1
+        if fresh or res == "unknown":
+            s = z3.Solver()
+            s.set("timeout", self.qtimeout_ms if fresh else self.timeout_ms)
+            for c in self.pc:
+                s.add(c)
+            for c in extra:
+                s.add(c)
+            res = str(s.check())
+            m = s.model() if res == "sat" else None
+            self.queries += 1
+            self.fresh_queries += 1
         self.solver_s += time.time() - t
         if not extra:
             if res == "sat":
@@ -854,6 +873,7 @@ class Ctx:
                 if z3.is_int(s):
                     s = z3.ToReal(s)
                 d = a - b
+                ob.exact_formula = a == b
                 at = _rat(abs_tol)
                 ob.formula = z3.And(d <= _rat(rel) * s + at, -d <= _rat(rel) * s + at)
                 ob.margin_formula = z3.And(d <= _rat(REL_MARGIN) * s + 10 * at, -d <= _rat(REL_MARGIN) * s + 10 * at)
